@@ -1,6 +1,7 @@
 import InjModel.Model.A64
 import InjModel.Model.A32
 import Driver.Util
+import Driver.Gen
 namespace Driver
 open Inj
 
@@ -56,6 +57,7 @@ def handleA64Tramp (args obs : List String) : Verdict :=
         | some c => c.pc == fake && changed.all (fun i => 9 ≤ i && i ≤ 17)
         | none => false
       let guardOk := bs.drop n |>.all (· == 0xCC)
+      Gen.withGen' (Gen.a64Tramp fake impl) <|
       { agree := model == impl, propOk := pOk && guardOk, branch := "tramp",
         detail := (if model == impl then "" else "model=" ++ hexBytes model) ++
                   (if pOk then "" else " key=a64.tramp.dest") ++ (if guardOk then "" else " key=a64.tramp.overrun") }
@@ -93,6 +95,7 @@ def handleA64Entry (args obs : List String) : Verdict :=
       match obs with
       | "panic" :: rest =>
         let untouched := kv rest "untouched" == some "1"
+        Gen.withGen' (Gen.a64Entry Mode.release func jit none) <|
         { agree := (match model with | Res.panic _ => true | _ => false), propOk := untouched, branch := "entry-refused",
           detail := (match model with | Res.ok ws => "model=ok:" ++ hexBytes (A64.wordsToBytes ws) | _ => "") ++
                     (if untouched then "" else " key=a64.entry.refused-but-written") }
@@ -108,6 +111,7 @@ def handleA64Entry (args obs : List String) : Verdict :=
           let tail := kv rest "tail" == some "1" && kv rest "restored" == some "1" && kv rest "psize" == some "12"
           let pOk := isB && dest == jit && nops && tail
           let ag := match model with | Res.ok mw => A64.wordsToBytes mw == bs | _ => false
+          Gen.withGen' (Gen.a64Entry Mode.release func jit (some bs)) <|
           { agree := ag, propOk := pOk, branch := "entry-b",
             detail := (if ag then "" else "model=" ++ (match model with | Res.ok mw => hexBytes (A64.wordsToBytes mw) | Res.panic _ => "panic")) ++
                       (if pOk then "" else if isB && dest == jit && nops then " key=a64.frame" else " dest=" ++ hex dest ++ " key=a64.entry.dest") }
@@ -135,6 +139,7 @@ def handleA64Long (args obs : List String) : Verdict :=
       let pOk := match r with
         | some c => c.pc == target && changed.all (fun i => 9 ≤ i && i ≤ 17)
         | none => false
+      Gen.withGen' (Gen.a64Long pc target ws) <|
       { agree := modelW == ws, propOk := pOk || !inRange, branch := if ws.length == 1 then "long-b" else (if inRange then "long-adrp" else "long-out-of-range"),
         detail := (if modelW == ws then "" else "model=" ++ toString (model.map hex)) ++ (if pOk || !inRange then "" else " key=a64.long.dest") }
     | _, _ => bad "args"
@@ -166,6 +171,7 @@ def handleA32Patch (args obs : List String) : Verdict :=
                        | [] => ""
                        | r :: _ => " key=a32.scratch=r" ++ toString r
           let ag := p.addr == addr && p.bytes == bs
+          Gen.withGen' (Gen.a32Patch src target addr bs) <|
           { agree := ag, propOk := landed && frame && bad.isEmpty,
             branch := (if src % 2 == 1 then (if addr % 4 == 0 then "thumb0" else "thumb2") else "arm"),
             detail := (if ag then "" else "model=" ++ hex p.addr ++ ":" ++ hexBytes p.bytes) ++ key }
